@@ -3,7 +3,7 @@ import re
 from . import secretlib, textgen
 from .textcommon import TEXT_MODEL_DEPS as MODEL_DEPS, TEXT_TRUSTED as TRUSTED_BASE, TEXT_ASSUMPTIONS as ASSUMPTIONS  # noqa
 
-COQ_DEPS = ["lib/Str.v", "lib/Rx.v", "lib/RxFacts.v", "lib/RxSub.v", "gen/G_rx.v", "gen/G_text_consts.v", "model/TextModel.v", "model/JunModel.v", "model/JunProofs.v", "model/TextProofs.v", "model/TextProofs2.v"]
+COQ_DEPS = ["lib/Str.v", "lib/Rx.v", "lib/RxFacts.v", "lib/RxSub.v", "gen/G_rx.v", "gen/G_text_consts.v", "model/TextModel.v", "model/JunModel.v", "model/JunProofs.v", "model/TextProofs.v", "model/TextProofs2.v", "model/Findings.v"]
 RULE = ("every single-secret template of the corpus x every format class (type 7 with all salts 0-15, md5-crypt salt lengths 1-8, all 65 $9$ salt characters, sha512, numeric, hex, text) x enclosing-text combinations x indentation; "
         "replacement read back from the output by position and decoded with independent decoders; non-trivial = a distinct (template, class, variant, enclosing) combination")
 
@@ -62,9 +62,30 @@ def run(ctx):
         rec_meta.append((tpl, s))
     cases.append(textgen.pipe(rec_lines, flags="p", salt="s"))
     metas.append(None)
+    # histories: a $9$ encryption of a clear text first, then that clear text as a numeric / hex / type 7 secret (and the other order)
+    hist_meta = []
+    for cls in ("numeric", "hex", "type7"):
+        for order in ("juniper-first", "clear-first"):
+            s = textgen.make_secret(rng, cls, 3 if cls == "type7" else None)
+            e9 = textgen.ref_encrypt9(s, rng.choice(textgen.ALPHA9)) 
+            tpl = {"numeric": "snmp-server community {} RO", "hex": "snmp-server community {} RO", "type7": "username x password 7 {}"}[cls]
+            l9, lc = 'set system tacplus-server 9.9.9.9 secret "%s"\n' % e9, tpl.replace("{}", s) + "\n"
+            cases.append(textgen.pipe([l9, lc] if order == "juniper-first" else [lc, l9], flags="p", salt="s"))
+            metas.append(("hist", cls, order, s, tpl))
     m, i = ctx.correspond(cases, project=lambda c, o: textgen.norm(o), label="secrets")
     nt = 0
     for c, out, ms in zip(cases, i, metas):
+        if ms is not None and ms[0] == "hist":
+            _, cls, order, s, tpl = ms
+            if out.startswith("RAISED"):
+                ctx.fail("processing raised", c[:11], out, label="raised")
+                continue
+            o = textgen.outlines(out)[1 if order == "juniper-first" else 0]
+            st, repl = secretlib.read_back(tpl, o, ("", ""))
+            why = check_format(cls, s, repl) if st == "ok" and repl != s else None
+            if why:
+                ctx.fail(why + " (history: %s)" % order, {"lines": c[11:], "class": cls, "secret": s}, o, label="clear-after-juniper" if order == "juniper-first" else "impl")
+            continue
         if ms is None:
             if not out.startswith("RAISED"):
                 for l, o, (tpl, s) in zip(c[11:], textgen.outlines(out), rec_meta):
@@ -95,6 +116,6 @@ def run(ctx):
             if why:
                 ctx.fail(why, {"line": l, "template": tpl, "class": cls, "secret": s}, o, label="impl")
     ctx.evaluations = sum(len(c) - 11 for c in cases)
-    ctx.distinct_nontrivial = len({(t, c, s, e) for ms in metas if ms for (t, c, s, e, _, _) in ms})
+    ctx.distinct_nontrivial = len({(t, c, s, e) for ms in metas if ms and ms[0] != "hist" for (t, c, s, e, _, _) in ms})
     ctx.search_stats = {"cases": len(cases), "lines": ctx.evaluations, "classes": {k: len(v) for k, v in variants.items()}}
     ctx.samples = [textgen.sample(cases[0], i[0], 0), textgen.sample(cases[2], i[2], 1)]
